@@ -244,6 +244,8 @@ func init() {
 				}
 				items = append(items, specItems("C02", sp, 1, []int{mcrt.StratFIFO, mcrt.StratNewest}, nil, c02Oracle)...)
 			}
+			// the programs of the other concurrent families, judged by "no panic, nothing hangs" alone (cross.go)
+			items = append(items, crossItems("C02", tier, judgeHang(true))...)
 			return items
 		},
 	})
